@@ -58,7 +58,7 @@ var tds = []tdesc{
 	{"cssDecode", "TCssDecode", "\\0afFgz \n\t19\x00\xff", false},
 	{"htmlEntityDecode", "", "&#x;0123aAmpltgnve\x00\xff", false},
 	{"removeComments", "TRemoveComments", "/*<!->#a \x00", false},
-	{"urlDecodeUni", "", "%uU+a0fF1\x00\xff", false},
+	{"urlDecodeUni", "TUrlDecodeUni", "%uU+a0fF1e2\x00\xff", false},
 	{"normalisePath", "", "/.a\\\x00", false},
 	{"normalisePathWin", "", "/.a\\\x00", false},
 	{"md5", "", "a\x00", false},
@@ -185,7 +185,11 @@ func Run(cfg vh.Config) (*vh.Result, error) {
 			res.InputDistribution["oracle_only"]++
 			return
 		}
-		terms = append(terms, fmt.Sprintf("CS %s %s %s %s %s", td.Coq, vh.HxS(in), vh.HxS(out), vh.Bool(changed), vh.Bool(isErr)))
+		if td.Coq == "TUrlDecodeUni" {
+			terms = append(terms, fmt.Sprintf("CU %s %s %s", vh.HxS(in), vh.HxS(out), vh.Bool(changed)))
+		} else {
+			terms = append(terms, fmt.Sprintf("CS %s %s %s %s %s", td.Coq, vh.HxS(in), vh.HxS(out), vh.Bool(changed), vh.Bool(isErr)))
+		}
 		cases = append(cases, cj)
 	}
 	addList := func(tl []tdesc, in string) {
@@ -196,7 +200,7 @@ func Run(cfg vh.Config) (*vh.Result, error) {
 		multi := []string{}
 		modelled := true
 		for _, td := range tl {
-			if td.Coq == "" {
+			if td.Coq == "" || td.Coq == "TUrlDecodeUni" {
 				modelled = false
 			}
 			t := get(td.Go)
@@ -299,6 +303,33 @@ func Run(cfg vh.Config) (*vh.Result, error) {
 			for i := 0; i < cfg.Pick(150, 3000); i++ {
 				addSingle(td, randFrom(rng, td.Alphabet, maxLen+1+rng.Intn(3)))
 			}
+			// %uXXXX escapes (best-fit table, full-width folding, truncations) for urlDecodeUni
+			if td.Go == "urlDecodeUni" {
+				hexd := "0123456789abcdefABCDEF"
+				for i := 0; i < cfg.Pick(600, 12000); i++ {
+					var code string
+					switch rng.Intn(4) {
+					case 0:
+						code = fmt.Sprintf("%04x", 0xa0+rng.Intn(0x60)) // latin-1 supplement (dense in the table)
+					case 1:
+						code = fmt.Sprintf("%04X", 0xff00+rng.Intn(0x60)) // full-width forms
+					case 2:
+						code = fmt.Sprintf("%04x", 0x2000+rng.Intn(0x300)) // punctuation, letterlike
+					default:
+						code = string([]byte{hexd[rng.Intn(22)], hexd[rng.Intn(22)], hexd[rng.Intn(22)], hexd[rng.Intn(22)]})
+					}
+					esc := "%" + string("uU"[rng.Intn(2)]) + code
+					if rng.Intn(6) == 0 {
+						esc = esc[:2+rng.Intn(4)] // truncated
+					}
+					if rng.Intn(6) == 0 {
+						b := []byte(esc)
+						b[2+rng.Intn(len(b)-2)] = 'g' // invalid hex digit
+						esc = string(b)
+					}
+					addSingle(td, randFrom(rng, "a%+", rng.Intn(3))+esc+randFrom(rng, "a%+1", rng.Intn(3)))
+				}
+			}
 			// long inputs with runs
 			for i := 0; i < cfg.Pick(6, 60); i++ {
 				n := []int{17, 64, 255, 256, 1000, 4096}[rng.Intn(6)]
@@ -347,8 +378,8 @@ func Run(cfg vh.Config) (*vh.Result, error) {
 			j = len(terms)
 		}
 		info, err := vh.WriteShard(cfg.OutDir, vh.Shard{
-			Name: fmt.Sprintf("C14_%d", k), Imports: "From Verif Require Import Base Transform CorrC14.",
-			CaseType: "CorrC14.case", MismatchF: "CorrC14.mismatches", Terms: terms[i:j], Cases: cases[i:j],
+			Name: fmt.Sprintf("C14_%d", k), Imports: "From Verif Require Import Base Transform CorrC14.\nFrom VerifGen Require Import FactsC14.",
+			CaseType: "CorrC14.case", MismatchF: "CorrC14.mismatches FactsC14.bestfit", Terms: terms[i:j], Cases: cases[i:j],
 		})
 		if err != nil {
 			return nil, err
